@@ -13,7 +13,7 @@ def run(ck):
     try:
         ck.write_generated("Errno.lean", gen_errno.generate(REPO, ck.work))
     except Exception as e:
-        ck.machinery_error("translator gen_errno failed: %r" % (e,)); return
+        ck.translator_failed("translator gen_errno failed: %r" % (e,))
     if not ck.build_driver(): return
     if not ck.prove():
         ck.report_proof_failure("theorems about the semaphore model / regenerated errno table no longer build")
